@@ -11,7 +11,7 @@ from . import gen
 from .rustlex import LostAnchor, Unsupported
 
 ROOT = os.path.dirname(os.path.dirname(os.path.abspath(__file__)))
-BUILD = os.path.join(ROOT, "build", "gen")
+BUILD = os.environ.get("VERIF_BUILD") or os.path.join(ROOT, "build", "gen")   # VERIF_BUILD: development only (parallel scratch runs)
 
 # messages Verus prints for an undischarged proof obligation
 VERIF_MSGS = (
